@@ -16,12 +16,12 @@ import tempfile
 import pyglove as pg
 from pyglove.core import typing as pgt
 from pyglove.core import geno
-from engine.chx import Assume, Violation, reach
+from engine.chx import Assume, Violation, reach, untraced, concretize
 from harness import treeops as T
 
 PROPERTY = 'C05'
 LEVEL = 'model_checking'
-REACH_POINTS = ['json.object_form', 'json.string_form', 'spec', 'fs.history', 'seq', 'pickle']
+REACH_POINTS = ['json.object_form', 'json.string_form', 'spec', 'fs.history', 'seq', 'rawseq', 'pickle']
 
 
 class Pt(pg.Object):
@@ -274,7 +274,7 @@ def h_spec(params, a, b, d, form):
 
 # ---- persistence ---------------------------------------------------------------------------
 
-MEM_PATHS = ['/mem/m.json', '/mem/e/m', '/mem/dir/f.json', '/mem/me.json', '/mem/mem/m', '/mem/e']
+MEM_PATHS = ['/mem/m.json', '/mem/e/m', '/mem/dir/f.json', '/mem/me.json', '/mem/mem/m', '/mem/e', '/mem/dir/mem/f.json', '/mem/dirf.json']
 
 
 def _content(n, v):
@@ -283,6 +283,31 @@ def _content(n, v):
     if k < n:
       items.append(v)
   return pg.Dict(k=items, tail='end')
+
+
+def _fs_body(fsk, paths, root, steps, load_order):
+  model = {}
+  reach('fs.history')
+  for step, (p, n, v) in enumerate(steps):
+    path = paths[p]
+    val = _content(n, v)
+    # a path cannot be both a file and a directory
+    if any(q != path and (q.startswith(path + '/') or path.startswith(q + '/')) for q in model):
+      raise Assume()
+    try:
+      pg.save(val, path)
+    except Exception as e:  # pylint: disable=broad-except
+      return Violation(f'fs:{fsk}:save_raises:{type(e).__name__}', f'step {step} path {path.replace(root, "<root>/")}')
+    model[path] = pg.to_json(val)
+    for q, want in (list(model.items()) if load_order else list(reversed(list(model.items())))):
+      try:
+        got = pg.load(q)
+      except Exception as e:  # pylint: disable=broad-except
+        return Violation(f'fs:{fsk}:load_raises:{type(e).__name__}', f'path {q.replace(root, "<root>/")} after step {step}: {e!r}'[:300])
+      if pg.to_json(got) != want:
+        return Violation(f'fs:{fsk}:load_returns_other_value',
+                         f'path {q.replace(root, "<root>/")}: saved {want!r} loaded {pg.to_json(got)!r}')
+  return None
 
 
 def h_fs(params, p1, n1, v1, p2, n2, v2, p3, n3, v3, load_order):
@@ -294,33 +319,19 @@ def h_fs(params, p1, n1, v1, p2, n2, v2, p3, n3, v3, load_order):
     root = '/mem/'
   else:
     tmp = tempfile.mkdtemp(prefix='verif_c05_')
-    paths = [os.path.join(tmp, p) for p in ['m.json', 'e/m', 'dir/f.json', 'me.json', 'e']]
+    paths = [os.path.join(tmp, p) for p in ['m.json', 'e/m', 'dir/f.json', 'me.json', 'e', 'dir/mem/f.json', 'dirf.json']]
     root = tmp
   try:
-    v1, v2, v3 = conc(v1), conc(v2), conc(v3)
-    n1, n2, n3 = conc(n1, 0, 3), conc(n2, 0, 3), conc(n3, 0, 3)
-    model = {}
-    reach('fs.history')
-    for step, (p, n, v) in enumerate(((p1, n1, v1), (p2, n2, v2), (p3, n3, v3))):
-      path = _pick(paths, p)
-      val = _content(n, v)
-      # a path cannot be both a file and a directory
-      if any(q != path and (q.startswith(path + '/') or path.startswith(q + '/')) for q in model):
-        raise Assume()
-      try:
-        pg.save(val, path)
-      except Exception as e:  # pylint: disable=broad-except
-        return Violation(f'fs:{fsk}:save_raises:{type(e).__name__}', f'step {step} path {path.replace(root, "<root>/")}')
-      model[path] = pg.to_json(val)
-      for q, want in (list(model.items()) if load_order else list(reversed(list(model.items())))):
-        try:
-          got = pg.load(q)
-        except Exception as e:  # pylint: disable=broad-except
-          return Violation(f'fs:{fsk}:load_raises:{type(e).__name__}', f'path {q.replace(root, "<root>/")} after step {step}: {e!r}'[:300])
-        if pg.to_json(got) != want:
-          return Violation(f'fs:{fsk}:load_returns_other_value',
-                           f'path {q.replace(root, "<root>/")}: saved {want!r} loaded {pg.to_json(got)!r}')
-    return None
+    nsteps = params.get('steps', 3)
+    if params.get('p1') is not None and p1 != params['p1']:
+      raise Assume()           # shard-level cut: the first path
+    steps = []
+    for k, (p, n, v) in enumerate(((p1, n1, v1), (p2, n2, v2), (p3, n3, v3))[:nsteps]):
+      # contents: empty / one / three items (overwrites with shorter and longer content); the value tells the saves apart
+      steps.append((concretize(p, range(len(paths))), concretize(n, [0, 1, 3]), concretize(v, [0, 1]) if k == 0 else k + 1))
+    load_order = bool(load_order)
+    with untraced():
+      return _fs_body(fsk, paths, root, steps, load_order)
   finally:
     if tmp is not None:
       shutil.rmtree(tmp, ignore_errors=True)
@@ -330,7 +341,7 @@ def h_fs(params, p1, n1, v1, p2, n2, v2, p3, n3, v3, load_order):
           pg.io.rm(q)
         except Exception:  # pylint: disable=broad-except
           pass
-      for q in ('/mem/e', '/mem/dir', '/mem/mem'):
+      for q in ('/mem/e', '/mem/dir/mem', '/mem/dir', '/mem/mem'):
         try:
           pg.io.rmdirs(q)
         except Exception:  # pylint: disable=broad-except
@@ -379,6 +390,57 @@ def h_seq(params, n1, n2, v, reopen):
         pass
 
 
+RAW_RECORDS = ['', ' ', 'a', 'a b', '{"x": 1}', '\t']
+
+
+def h_rawseq(params, n, r0, r1, r2, n2, reopen):
+  """Raw string records (no serializer) of a record sequence come back exactly, in order, across reopen-for-append;
+  line-based files and the in-memory sequence kind (.mem)."""
+  fsk, ext = params['fs'], params['ext']
+  tmp = None
+  if fsk == 'mem':
+    path = '/mem/rawseq/r.' + ext
+  else:
+    tmp = tempfile.mkdtemp(prefix='verif_c05_')
+    path = os.path.join(tmp, 'rawseq', 'r.' + ext)
+  try:
+    n, n2 = conc(n, 0, 3), conc(n2, 0, 1)
+    recs = [RAW_RECORDS[conc(r, 0, len(RAW_RECORDS) - 1)] if k < n else None for k, r in enumerate((r0, r1, r2))]
+    recs = [r for r in recs if r is not None]
+    reopen = bool(reopen)
+    reach('rawseq')
+    with untraced():
+      want = []
+      with pg.io.open_sequence(path, 'w') as f:
+        for r in recs:
+          f.add(r)
+          want.append(r)
+      if reopen:
+        with pg.io.open_sequence(path, 'a') as f:
+          for k in range(n2):
+            f.add('tail')
+            want.append('tail')
+      with pg.io.open_sequence(path, 'r') as f:
+        got = [r for r in f]       # (list(f) would ask for len(f) first)
+        try:
+          length = len(f)
+        except NotImplementedError:
+          length = len(want)       # (line-based sequences document that they have no length)
+      if got != want:
+        return Violation(f'rawseq:{fsk}:{ext}:records_differ', f'wrote {want!r} read {got!r}')
+      if length != len(want):
+        return Violation(f'rawseq:{fsk}:{ext}:len_differs', f'{length} vs {len(want)} records')
+    return None
+  finally:
+    if tmp is not None:
+      shutil.rmtree(tmp, ignore_errors=True)
+    else:
+      try:
+        pg.io.rm(path)
+      except Exception:  # pylint: disable=broad-except
+        pass
+
+
 def h_pickle(params, v0, v1, v2, v3, si, fi, how):
   shape = params['shape']
   v = (v0, v1, v2, v3)
@@ -411,9 +473,17 @@ def shards(tier, seed):
   fa = [('p1', 'int'), ('n1', 'int'), ('v1', 'int'), ('p2', 'int'), ('n2', 'int'), ('v2', 'int'), ('p3', 'int'), ('n3', 'int'),
         ('v3', 'int'), ('load_order', 'bool')]
   for fs in ('mem', 'std'):
-    out.append(dict(name=f'fs:{fs}', fn='h_fs', params=dict(fs=fs), args=fa, budget_s=b * 2, per_path_s=30))
+    if quick:
+      out.append(dict(name=f'fs:{fs}:2saves', fn='h_fs', params=dict(fs=fs, steps=2), args=fa, budget_s=b * 4, expect_s=60, per_path_s=30))
+    else:
+      for p1 in range(8 if fs == 'mem' else 7):
+        out.append(dict(name=f'fs:{fs}:3saves:p{p1}', fn='h_fs', params=dict(fs=fs, steps=3, p1=p1), args=fa, budget_s=b * 2, per_path_s=30))
     out.append(dict(name=f'seq:{fs}', fn='h_seq', params=dict(fs=fs),
                     args=[('n1', 'int'), ('n2', 'int'), ('v', 'int'), ('reopen', 'bool')], budget_s=b, per_path_s=30))
+    for ext in ('txt', 'jsonl', 'mem'):
+      out.append(dict(name=f'rawseq:{fs}:{ext}', fn='h_rawseq', params=dict(fs=fs, ext=ext),
+                      args=[('n', 'int'), ('r0', 'int'), ('r1', 'int'), ('r2', 'int'), ('n2', 'int'), ('reopen', 'bool')],
+                      budget_s=b * 3, expect_s=40, per_path_s=30))
   for shape in (['dict_list', 'object', 'tuples', 'int_keys', 'dna'] if quick else SHAPES):
     out.append(dict(name=f'pickle:{shape}', fn='h_pickle', params=dict(shape=shape),
                     args=[('v0', 'int'), ('v1', 'int'), ('v2', 'int'), ('v3', 'int'), ('si', 'int'), ('fi', 'int'), ('how', 'int')],
